@@ -168,7 +168,7 @@ Definition match_type (g : grammar) (relname : str) : option (str * str) :=
 
 (* ---------------------------------------------------------------- parse -- *)
 Inductive err := EUnbalanced | EUnknownCpt | ETooMany | EMissingNode | EMissingArg
-               | EAfterNamed | EUnknownParam | EAssigned | EIndex | EOptsBraces | EInclude.
+               | EAfterNamed | EUnknownParam | EAssigned | EIndex | EOptsBraces | EInclude | EEmptyNs.
 Inductive res (A : Type) := Ok (a : A) | Err (e : err).
 Arguments Ok {A}. Arguments Err {A}.
 Definition bind {A B} (x : res A) (f : A -> res B) : res B :=
@@ -180,7 +180,7 @@ Definition err_eqb (a b : err) : bool :=
   | EUnbalanced, EUnbalanced | EUnknownCpt, EUnknownCpt | ETooMany, ETooMany
   | EMissingNode, EMissingNode | EMissingArg, EMissingArg | EAfterNamed, EAfterNamed
   | EUnknownParam, EUnknownParam | EAssigned, EAssigned | EIndex, EIndex
-  | EOptsBraces, EOptsBraces | EInclude, EInclude => true
+  | EOptsBraces, EOptsBraces | EInclude, EInclude | EEmptyNs, EEmptyNs => true
   | _, _ => false
   end.
 
@@ -384,6 +384,8 @@ Definition anon_types := [s2l "A"; s2l "W"; s2l "O"; s2l "P"].
 Definition parse_cpt (g : grammar) (st : cstate) (ns net name : str) (fields : list str) (rest : option str)
   : res (cpt * cstate) :=
   let nparts := split_on DOT name in
+  (* `if '' in parts[:-1]: raise ValueError('Empty namespace ...')` *)
+  if existsb is_nil (init_strs nparts) then Err EEmptyNs else
   let relname := last_str nparts in
   let cur_ns := if 1 <? length nparts then join [DOT] (init_strs nparts) ++ [DOT] else [] in
   match match_type g relname with
